@@ -100,9 +100,9 @@ def order(n, kind, same_names=False, fix=None, bare=False):
             if a['perm'] % 3 == 0:
                 flipped = '>' if k0 == '<' else '<'
                 r0.type = flipped
-                refs_f[0][0].inline = True
-                refs_f[0][0].type = flipped
-                if db.sql != db_f.sql:
+                db_g, _, _, _, refs_g = build(a2)            # a model that is given the final kind before anything is rendered
+                refs_g[0][0].type = flipped
+                if db.sql != db_g.sql:
                     return 'after a reference changed its kind the rendering differs from that of a freshly built identical model (stale key holder)'
                 r0.type = k0
         r = ddl.read_or_none(sql1)
